@@ -181,6 +181,10 @@ func (m *MatchHTTP) handleHttp2WithPriorKnowledge(reader io.Reader, req *http.Re
 	}
 
 	framer := http2.NewFramer(io.Discard, reader)
+	// The framer allocates a frame's declared length (up to 16 MiB) before reading its payload.
+	// Nothing beyond the matching buffer can be read here anyway, and a client must not exceed
+	// the initial SETTINGS_MAX_FRAME_SIZE (16384, RFC 7540 section 6.5.2) before it has seen ours.
+	framer.SetMaxReadFrameSize(2 * layer4.MaxMatchingBytes)
 
 	// read the first 10 frames until we get a headers frame (skipping settings, window update & priority frames)
 	var frame http2.Frame
